@@ -112,7 +112,7 @@ def confirm(ev, prop, violations, make_task, scenario_fn, sig_fn, logdir, tries=
             if seen_sig[v.signature]:
                 keep.append(v)
             continue
-        if len(seen_sig) >= 8:                      # a tree that fails in many different ways: no need to confirm them all
+        if len(seen_sig) >= 3:                      # a tree that fails in many different ways: no need to confirm them all
             seen_sig[v.signature] = True
             keep.append(v)
             continue
@@ -131,6 +131,19 @@ def confirm(ev, prop, violations, make_task, scenario_fn, sig_fn, logdir, tries=
             print('NOTE: property=%s a rejected execution did not reproduce in %d quiet re-runs (timing under load), not reported: %s' % (prop, tries, v.signature))
     ev.cov['unconfirmed_rejections'] = unconfirmed
     return keep
+
+
+def _played(recs, ev):
+    """Scenarios that were not started because the replay budget was used up come back as None."""
+    done = [x for x in recs if x is not None]
+    skipped = len(recs) - len(done)
+    if recs and not done:
+        raise MachineryError('no replay scenario completed within the replay budget')
+    if skipped:
+        print('NOTE: property=%s the replay budget was used up: %d of %d scenarios were not played (every step of the played ones ran into its time bound?)'
+              % (ev.prop, skipped, len(recs)))
+    ev.cov['scenarios_not_played_budget'] = skipped
+    return done, skipped
 
 
 # ----------------------------------------------------------------------------- recording
@@ -277,12 +290,29 @@ def run_c11(tier, replay):
     # 1. TLC enumerates the fault placements (path dumps = relation Allowed: scenario -> outcomes),
     #    for the algorithm as proposed (all fixes) and as written (no fix); the tap records the streams
     jobs, jobs2 = Jobs(), Jobs()
-    jobs.start('rec', lambda: record(logdir))
+    def rec_or_none():
+        try:
+            return record(logdir)
+        except MachineryError as e:          # well-formed clients could not even be recorded on a fresh server
+            return e
+    jobs.start('rec', rec_or_none)
     for nf in (1, 2):
         for fx in ('Fix_all', 'Fix_none'):
             (jobs if nf == 1 else jobs2).start('paths%d%s' % (nf, fx), lambda nf=nf, fx=fx: tlc.run(
                 'ServerMC', cfg_text=_cfg(nf, fx, late='TRUE', inv=('PathDump',)), workers=6, name='paths%d%s' % (nf, fx), timeout=900))
     res = jobs.wait()
+    if isinstance(res['rec'], MachineryError):
+        # is it the server (it does not serve well-behaved clients at all - for the judge to say) or the machinery?
+        probe = R.pool_map('scenario_c11', [dict(id='nofault', faults=[], con=False, streams={}, pos={}, logdir=logdir)], logdir, nproc=1)[0]
+        pf, _ = tlc.judge('ServerJudge', [{k: probe[k] for k in ('id', 'prop', 'scn', 'obs')}], name='probe11')
+        if not pf:
+            raise res['rec']
+        what = ('%s violated without any faulty client: a fresh server does not serve well-behaved clients: round trips %s, server alive=%s, healthy workers %s (recording said: %s)'
+                % (','.join(sorted(c for _, c in pf)), [y['got'] for y in probe['obs']['fresh']], probe['obs']['srv_alive'],
+                   [(y['kind'], y['got']) for y in probe['obs']['others']], str(res['rec'])[:200]))
+        ev.cov['evaluations'], ev.cov['distinct_nontrivial'], ev.cov['rule'] = 1, 0, 'recording of well-formed clients failed; one scenario without faults was played and judged'
+        ev.sample({'scn': [], 'obs': probe['obs']})
+        return finish(ev, [Violation('C11', c11_signature(probe, [c for _, c in pf]), what, {'kind': 'C11', 'faults': [], 'con': False})], T.s(), [])
     streams, pos, lens = res['rec']
     allowed = {'Fix_all': {}, 'Fix_none': {}}
 
@@ -307,8 +337,10 @@ def run_c11(tier, replay):
 
     def replay_all():
         try:
-            box['recs'] = R.pool_map('scenario_c11', mk_tasks(scen, 0), logdir, nproc=12)
-            box['recs'] += R.pool_map('scenario_c11', mk_tasks(box['seqs'](), len(scen)), logdir, nproc=12)
+            bud = 270 if tier == 'quick' else 3000
+            t0_ = Timer()
+            box['recs'] = R.pool_map('scenario_c11', mk_tasks(scen, 0), logdir, nproc=12, budget=bud)
+            box['recs'] += R.pool_map('scenario_c11', mk_tasks(box['seqs'](), len(scen)), logdir, nproc=12, budget=max(30, bud - t0_.s()))
         except BaseException as e:  # noqa
             box['err'] = e
     nseq = 12 if tier == 'quick' else 160
@@ -390,7 +422,7 @@ def run_c11(tier, replay):
     rt.join()
     if 'err' in box:
         raise box['err'] if isinstance(box['err'], MachineryError) else MachineryError('replay failed: %r' % (box['err'],))
-    recs = box['recs']
+    recs, nskipped = _played(box['recs'], ev)
 
     # 4. TLC judges every real execution with the C11 operators
     jrecs = [{'id': x['id'], 'prop': 'C11', 'scn': x['scn'], 'obs': x['obs']} for x in recs]
@@ -702,9 +734,11 @@ def run_c18(tier, replay):
     tasks = [dict(id='h%d' % i, hist=h, idmap=c18_idmap(h, mr_, i, tier), upayload=streams['uctxworker'][1],
                   upos=[p for p in pos['uctxworker'] if p[0] == 1], logdir=logdir)
              for i, (h, mr_, _) in enumerate(chosen)]
-    recs = R.pool_map('scenario_c18', tasks, logdir, nproc=12, task_timeout=240)
+    recs = R.pool_map('scenario_c18', tasks, logdir, nproc=12, task_timeout=240, budget=240 if tier == 'quick' else 3000)
     for x, (h, mr, ml) in zip(recs, chosen):
-        x['model_rep'], x['model_live'] = mr, ml
+        if x is not None:
+            x['model_rep'], x['model_live'] = mr, ml
+    recs, _ = _played(recs, ev)
 
     # 2. collect the design runs
     dres = design.wait()
@@ -985,7 +1019,7 @@ def run_c12(tier, replay):
         if racer != 'none':
             kl = kl + [dict(state='starting', persistent=False)]
         tasks.append(dict(id='c%d' % i, how=how, kids=kl, racer=racer, streams=streams, pos=pos, logdir=logdir))
-    recs = R.pool_map('scenario_c12', tasks, logdir, nproc=12, task_timeout=240)
+    recs, _ = _played(R.pool_map('scenario_c12', tasks, logdir, nproc=12, task_timeout=240, budget=270 if tier == 'quick' else 3000), ev)
 
     # 2. collect the design runs
     dres = design.wait()
@@ -1082,7 +1116,30 @@ def run_c12(tier, replay):
     return finish(ev, violations, T.s(), drift)
 
 
+def _watchdog(prop, tier):
+    """Whatever the tree under test does, a check ends: after the budget every thread's stack is printed (so that
+    the place is known), the processes this check started are killed and the check exits 2."""
+    import faulthandler
+    import sys
+    import time
+    limit = float(os.environ.get('VERIF_WATCHDOG_S', 840 if tier == 'quick' else 7200))
+
+    def bark():
+        time.sleep(limit)
+        print('MACHINERY-FAILURE: check %s (%s) did not finish within %d s; thread stacks follow' % (prop, tier, limit), flush=True)
+        try:
+            faulthandler.dump_traceback(file=sys.stdout, all_threads=True)
+        except Exception:  # noqa
+            pass
+        sys.stdout.flush()
+        mine = L.descendants(os.getpid())
+        L.kill_pids(mine)
+        os._exit(2)
+    threading.Thread(target=bark, daemon=True).start()
+
+
 def run(prop, tier, replay=None):
+    _watchdog(prop, tier)
     if prop == 'C11':
         return run_c11(tier, replay)
     if prop == 'C12':
